@@ -1,12 +1,17 @@
 #!/bin/bash
-# usage: tools_mutant.sh <patch.diff> <check id>...   applies the patch to /repo, runs the quick checks, reverts
+# usage: tools_mutant.sh <patch.diff> <check id>...
+# applies the patch to a scratch copy of /repo (never to /repo itself), checks that it builds and passes
+# the baseline tests, runs the quick checks against the copy (VERIF_REPO), removes the copy and
+# restores the evidence files.
 set -u
 patch=$1; shift
-git -C /repo apply "$patch" || { echo "patch does not apply"; exit 2; }
-trap 'git -C /repo checkout -- . ; git -C /repo clean -fdq; git -C /verif checkout -- evidence' EXIT
-( cd /repo && GOFLAGS=-mod=mod GOPROXY=off GOSUMDB=off go build ./... && go test -vet=off -count=1 . 2>&1 | tail -1 )
+copy=$(mktemp -d /tmp/mutrepo-XXXXXX)
+cp -r /repo/. "$copy"/
+trap 'rm -rf "$copy"; git -C /verif checkout -- evidence 2>/dev/null' EXIT
+git -C "$copy" apply "$patch" || { echo "patch does not apply"; exit 2; }
+( cd "$copy" && GOFLAGS=-mod=mod GOPROXY=off GOSUMDB=off go build ./... && go test -vet=off -count=1 . 2>&1 | tail -1 )
 for id in "$@"; do
-  out=$(cd /verif && ./check $id quick 2>&1); rc=$?
+  out=$(cd /verif && VERIF_REPO="$copy" ./check $id quick 2>&1); rc=$?
   echo "== $id rc=$rc $(echo "$out" | grep -c '^VIOLATION') violations; kinds: $(echo "$out" | grep -o 'kind=[^ ]*' | sort | uniq -c | tr '\n' ' ')"
   echo "$out" | grep -i 'infra' | head -3
 done
